@@ -148,13 +148,18 @@ func (x *ctx) callStatic(st *state, fr *frame, callee *ssa.Function, bind []val,
 		}
 		return x.externalCall(st, fr, key, callee, args, rt)
 	}
-	if !x.w.isRepoPkg(callee) && x.spec == 0 {
+	if !x.w.isRepoPkg(callee) {
 		return x.externalCall(st, fr, key, callee, args, rt)
 	}
 	return x.inline(st, fr, callee, bind, args)
 }
 
 func (x *ctx) inline(st *state, fr *frame, callee *ssa.Function, bind []val, args []val) []outcome {
+	if x.spec > 0 && !x.inMerge {
+		// specification mode: every inlined call is merged into a single outcome (pure functions)
+		return x.ret1(st, x.evalSpecFn(st, callee, bind, args))
+	}
+	x.inMerge = false
 	if fr.depth > x.depthCap {
 		x.fail("inlining too deep at %s (from %s)", callee, fr.fn)
 	}
@@ -231,10 +236,12 @@ func (x *ctx) ghostInfo(name string, sig *types.Signature) heapInfo {
 func (x *ctx) ghostArr(st *state, name string, hi heapInfo) string {
 	key := x.ghostKey(name)
 	if a, ok := st.heap[key]; ok {
+		x.noteRead(key, a)
 		return a
 	}
 	n := "G_" + symName(strings.TrimPrefix(name, "ghost_"))
 	x.declare(n, ghostSort(hi))
+	x.noteRead(key, n)
 	return n
 }
 
@@ -346,9 +353,57 @@ func nestedStore(arr string, idx []term, v string) string {
 func (x *ctx) evalSpecFn(st *state, fn *ssa.Function, bind []val, args []val) val {
 	x.spec++
 	defer func() { x.spec-- }()
+	// memoisation: the same pure function on the same arguments, reading the same heap arrays, yields the same term
+	memoKey := ""
+	if fn.Parent() == nil && len(bind) == 0 {
+		var b strings.Builder
+		b.WriteString(fn.String())
+		okKey := true
+		for _, a := range args {
+			var ts []term
+			flattenPlain(a, &ts, &okKey)
+			for _, t := range ts {
+				b.WriteString("|" + t.s)
+			}
+		}
+		if okKey {
+			memoKey = b.String()
+			for _, m := range x.memo[memoKey] {
+				match := true
+				for k, name := range m.reads {
+					cur, ok := st.heap[k]
+					if !ok {
+						cur = x.initialName(k)
+					}
+					if cur != name {
+						match = false
+						break
+					}
+				}
+				if match {
+					for _, d := range m.defs {
+						st.define(d)
+					}
+					x.noteReads(m.reads)
+					return m.v
+				}
+			}
+		}
+	}
+	x.readLog = append(x.readLog, map[string]string{})
+	defer func() {
+		top := x.readLog[len(x.readLog)-1]
+		x.readLog = x.readLog[:len(x.readLog)-1]
+		x.noteReads(top)
+	}()
+	pcBefore := len(st.pc)
+	defer func() {
+		_ = pcBefore
+	}()
 	s := st.clone()
 	base := len(s.pc)
 	fr := &frame{fn: fn, regs: map[ssa.Value]val{}, depth: 1}
+	x.inMerge = true
 	outs := x.inline(s, fr, fn, bind, args)
 	var live []outcome
 	for _, o := range outs {
@@ -357,7 +412,8 @@ func (x *ctx) evalSpecFn(st *state, fn *ssa.Function, bind []val, args []val) va
 		}
 	}
 	if len(live) == 0 {
-		x.fail("specification function %s has no normal outcome", fn)
+		debugf("spec %s: %d outcomes", fn, len(outs))
+		x.fail("specification function %s has no normal outcome (%d outcomes)", fn, len(outs))
 	}
 	// merge: value = ite(pc1, v1, ite(pc2, v2, ... vn))
 	branch := func(o outcome) string {
@@ -410,6 +466,22 @@ func (x *ctx) evalSpecFn(st *state, fn *ssa.Function, bind []val, args []val) va
 		}
 	}
 	// heap terms created in specification mode (ghost reads declare arrays) carry no state change
+	if merged.t.s != "" {
+		merged.t = x.named(st, merged.t)
+	}
+	if memoKey != "" && merged.fn == nil && merged.ptr == nil {
+		var defs []string
+		for _, f := range st.pc[pcBefore:] {
+			if f.def {
+				defs = append(defs, f.t)
+			}
+		}
+		reads := map[string]string{}
+		for k, v := range x.readLog[len(x.readLog)-1] {
+			reads[k] = v
+		}
+		x.memo[memoKey] = append(x.memo[memoKey], memoEntry{v: merged, defs: defs, reads: reads})
+	}
 	return merged
 }
 
@@ -436,7 +508,61 @@ func (x *ctx) mergeVal(cond string, a, b val) val {
 	if a.t.s == "" || b.t.s == "" {
 		return a
 	}
-	return scalar(ite(cond, a.t, b.t))
+	r := ite(cond, a.t, b.t)
+	return scalar(r)
+}
+
+type memoEntry struct {
+	v     val
+	defs  []string
+	reads map[string]string
+}
+
+// noteReads records heap reads in the innermost active read log.
+func (x *ctx) noteReads(m map[string]string) {
+	if len(x.readLog) == 0 {
+		return
+	}
+	top := x.readLog[len(x.readLog)-1]
+	for k, v := range m {
+		if _, ok := top[k]; !ok {
+			top[k] = v
+		}
+	}
+}
+
+func (x *ctx) noteRead(key, name string) {
+	if len(x.readLog) == 0 {
+		return
+	}
+	top := x.readLog[len(x.readLog)-1]
+	if _, ok := top[key]; !ok {
+		top[key] = name
+	}
+}
+
+func flattenPlain(v val, out *[]term, ok *bool) {
+	if v.agg {
+		for _, f := range v.fields {
+			flattenPlain(f, out, ok)
+		}
+		return
+	}
+	if v.t.s == "" {
+		*ok = false
+		return
+	}
+	*out = append(*out, v.t)
+}
+
+// named replaces a large term by a fresh constant defined equal to it.
+func (x *ctx) named(st *state, t term) term {
+	if len(t.s) < 240 || t.srt.name == "" {
+		return t
+	}
+	n := x.freshTerm("t", t.srt)
+	st.define(fmt.Sprintf("(= %s %s)", n.s, t.s))
+	return n
 }
 
 // bindArgs builds the argument list of a synthetic function from values bound by name.
@@ -490,7 +616,18 @@ func (x *ctx) applyClosure(st *state, cv val, names []string, env envFn) val {
 
 // evalEnsures evaluates a 3-level clause: entry state, linearization-point state (or entry), exit state.
 func (x *ctx) evalEnsures(con *Contract, cl *Clause, pre, lp, post *state, env envFn, renv envFn) string {
+	n0 := len(pre.pc)
 	l1 := x.clauseL1(pre, con, cl, env)
+	copyDefs := func(from *state, start int, to *state) {
+		if from == to {
+			return
+		}
+		for _, f := range from.pc[start:] {
+			if f.def {
+				to.define(f.t)
+			}
+		}
+	}
 	// cells created at level 1 must be visible in later states
 	carry := func(from, to *state) {
 		for id, v := range from.cells {
@@ -503,9 +640,15 @@ func (x *ctx) evalEnsures(con *Contract, cl *Clause, pre, lp, post *state, env e
 		lp = post
 	}
 	carry(pre, lp)
+	copyDefs(pre, n0, lp)
+	if lp != post {
+		copyDefs(pre, n0, post)
+	}
+	n1 := len(lp.pc)
 	l2 := x.applyClosure(lp, l1, nil, env)
 	carry(lp, post)
 	carry(pre, post)
+	copyDefs(lp, n1, post)
 	r := x.applyClosure(post, l2, cl.P3, renv)
 	return r.t.s
 }
@@ -550,6 +693,7 @@ func (x *ctx) contractCall(st *state, fr *frame, con *Contract, callee *ssa.Func
 		l1 val
 	}
 	var pends []pend
+	npre := len(pre.pc)
 	for _, cl := range con.Ensures {
 		if cl.OnPanic {
 			continue
@@ -559,6 +703,11 @@ func (x *ctx) contractCall(st *state, fr *frame, con *Contract, callee *ssa.Func
 	for id, v := range pre.cells {
 		if _, ok := st.cells[id]; !ok {
 			st.cells[id] = v
+		}
+	}
+	for _, f := range pre.pc[npre:] {
+		if f.def {
+			st.define(f.t)
 		}
 	}
 	x.applyModifies(st, pre, con, con.Mods, env)
@@ -792,12 +941,18 @@ func (x *ctx) callbackCall(st *state, fr *frame, cb *cbRef, args []val, rt types
 		l1 val
 	}
 	var pends []pend
+	npre := len(pre.pc)
 	for _, cl := range spec.Ensures {
 		pends = append(pends, pend{cl, x.clauseL1(pre, con, cl, cenv(cl))})
 	}
 	for id, v := range pre.cells {
 		if _, ok := st.cells[id]; !ok {
 			st.cells[id] = v
+		}
+	}
+	for _, f := range pre.pc[npre:] {
+		if f.def {
+			st.define(f.t)
 		}
 	}
 	menv := func(name string, t types.Type) (val, bool) {
@@ -905,10 +1060,17 @@ func (x *ctx) loopEntry(st *state, fr *frame, b *ssa.BasicBlock, prev *ssa.Basic
 	}
 	penv := func(name string, t types.Type) (val, bool) { v, ok := x.params[name]; return v, ok }
 	evalInv := func(s *state, cl *Clause, fresh bool) string {
-		l1 := x.clauseL1(x.pre, fr.con, cl, penv)
-		for id, v := range x.pre.cells {
+		pc := x.pre.clone()
+		np := len(pc.pc)
+		l1 := x.clauseL1(pc, fr.con, cl, penv)
+		for id, v := range pc.cells {
 			if _, ok := s.cells[id]; !ok {
 				s.cells[id] = v
+			}
+		}
+		for _, f := range pc.pc[np:] {
+			if f.def {
+				s.define(f.t)
 			}
 		}
 		return x.applyClosure(s, l1, cl.P3, phiEnv(fresh)).t.s
